@@ -1371,6 +1371,9 @@ def min_or_max_and_position(arr, want_max: bool = True):
     best = arr[i]
     best_pos = i
     for j, v in enumerate(arr[i + 1 :], i):
+        if is_null(v):
+            # the integer null sentinel would otherwise win every minimum
+            continue
         if want_max and v >= best or (not want_max and v <= best):
             best = v
             best_pos = j
@@ -1403,7 +1406,8 @@ def _rolling_max_or_min_1d(
     want_min = not want_max
 
     # Track rolling max/min and its position in circular buffers for each group
-    current_best = np.full(ngroups, -np.inf if want_max else np.inf)
+    # same dtype as the buffers: a float64 detour would round int64 timestamps
+    current_best = np.full(ngroups, null_value)
     pos_of_current_best = np.zeros(ngroups, dtype=np.int64)
     group_buffers = np.full((ngroups, window), null_value)
     group_buffer_pos = np.zeros(ngroups, dtype=np.int64)
